@@ -1,14 +1,22 @@
 import CattrsModel.GenHook.Model
+import CattrsModel.GenHook.Nested
+import CattrsModel.GenHook.NestedForbid
+import CattrsModel.GenHook.TaggedCompose
+import CattrsModel.Tagged.Driver
 import CattrsModel.Conv.Driver
 /-!
 # Line-protocol operations of the customised-hook model (driver only; no theorem depends on this file)
 
 ```
-HOOKUN     <gworld> <fuel> <ty> <obj>     -> (ok <obj>) | unmodelled
+HOOKUN     <gworld> <fuel> <ty> <obj>     -> (ok <obj>) | (err (leaf)) | unmodelled     -- err: a required TypedDict key is missing (KeyError)
 HOOKST     <gworld> <fuel> <ty> <obj>     -> (ok <obj>) | (err <errtree>) | unmodelled
 HOOKKEYS   <gworld> <class#> <instance>   -> (keys "k"…)             -- the specification `expectedKeys`
 CONSISTENT <gworld> <class#>              -> 1 | 0                   -- `ConsistentCls` / `ConsistentTD`
 QUOTE      "<key>"                        -> (quoted "<repr(key)>") | unmodelled
+HOOKCONF   <gworld> <fuel> <ty> <obj>     -> 1 | 0 | unmodelled      -- hypotheses of C09_roundtrip_nested (`gconf` ∧ consistent)
+TAGHOOKST  <gworld> <fuel> <tu> <obj>     -> (ok <obj>) | (err <errtree>) | unmodelled   -- `tagHookSt` over the table's hooks
+                                              (<tu> as in Tagged/Driver.lean; members are class numbers of the gworld)
+HOOKHITS   <gworld> <fuel> <ty> <obj>     -> 1 | 0 | unmodelled      -- `hits`: a forbidding position of the payload has an extra
 gworld ::= (gworld DETAILED (classes gcls*) (enums (obj*)*))
 gcls   ::= (gcls attrs|dc|td|nt FROZEN (kw NAME*) hc fld*)
 hc     ::= (hc (ovs (NAME OID RENAME OMIT SH UH)*) USEALIAS INCLINITFALSE OID FORBID DETAILED)
@@ -123,7 +131,9 @@ partial def unmodUN (g : GWorld) : Option Ty → Obj → Bool
         (match g.classes[c]? with
          | some k => k.attrs.any (fun a => match dlookup kvs (.str a.name) with
              | some v => (ovOf k.hc a).uh.isNone && unmodUN g a.ty v
-             | none => a.required)
+             -- a missing required key raises `KeyError` (modelled by `keyErrMark` under the key's final name); outside
+             -- `ConsistentTD` a later `pop` / assignment of the same name could erase the marker: not modelled there
+             | none => a.required && !k.consistent)
          | none => true)
       | .opt _, .none => false
       | .opt t', x => unmodUN g (some t') x
@@ -154,13 +164,21 @@ partial def unmodST (g : GWorld) : Option Ty → Obj → Bool
           | _ => false)
       | _ => true
 
+/-- `instance['a']` raised `KeyError` somewhere below: the call raises -/
+partial def hasKeyErr : Obj → Bool
+  | .coll _ xs => xs.any hasKeyErr
+  | .dict kvs => kvs.any (fun kv => hasKeyErr kv.1 || hasKeyErr kv.2)
+  | .inst _ fs => fs.any (fun f => hasKeyErr f.2)
+  | o => o == keyErrMark
+
 /-- classes the model does not cover: an `init=False` attribute without a default (the attribute may stay unset) -/
 def worldUnmodelled (g : GWorld) : Bool :=
   g.classes.any (fun k => k.attrs.any (fun a => !a.init && !a.hasDefault))
 
 def budget (g : GWorld) (ty : Ty) (cap : Nat) : Option Nat :=
   let d := depthTy g 64 (some ty)
-  if d > 8 * (cap + 1) then none else some (d + 1)
+  -- slack: `unIsIdTy` spends budget on wrapper layers of class-free types, which `depthTy` counts as 1
+  if d > 8 * (cap + 1) then none else some (d + 17)
 
 def quoteModelled (s : String) : Bool := s.toList.all (fun c => c.toNat < 0x100)
 
@@ -172,7 +190,9 @@ def genHookHandle (op : String) (args : List Sexp) : Option Sexp :=
       | none => some (.atom "unmodelled")
       | some n =>
         if worldUnmodelled g || unmodUN g (some ty) o then some (.atom "unmodelled")
-        else some (replyObj (unTy g n (some ty) o))
+        else
+          let r := unTy g n (some ty) o
+          if hasKeyErr r then some (.list [.atom "err", .list [.atom "leaf"]]) else some (replyObj r)
   | "HOOKST", [gw, fuel, ty, o] => do
       let g ← gworldOfSexp gw; let cap ← atomNat? fuel; let ty ← tyOfSexp ty; let o ← objOfSexp o
       match budget g ty cap with
@@ -194,6 +214,30 @@ def genHookHandle (op : String) (args : List Sexp) : Option Sexp :=
       let g ← gworldOfSexp gw; let ci ← atomNat? ci
       let k ← g.classes[ci]?
       some (ofBool k.consistent)
+  | "HOOKCONF", [gw, fuel, ty, o] => do
+      let g ← gworldOfSexp gw; let cap ← atomNat? fuel; let ty ← tyOfSexp ty; let o ← objOfSexp o
+      match budget g ty cap with
+      | none => some (.atom "unmodelled")
+      | some n => some (ofBool (g.consistent && gconf g n (some ty) o))
+  | "HOOKHITS", [gw, fuel, ty, o] => do
+      let g ← gworldOfSexp gw; let cap ← atomNat? fuel; let ty ← tyOfSexp ty; let o ← objOfSexp o
+      match budget g ty cap with
+      | none => some (.atom "unmodelled")
+      | some n => some (ofBool (hits g n (some ty) o))
+  | "TAGHOOKST", [gw, fuel, tu, o] => do
+      let g ← gworldOfSexp gw; let cap ← atomNat? fuel; let U ← Tagged.tuOfSexp tu; let o ← objOfSexp o
+      if worldUnmodelled g then some (.atom "unmodelled")
+      else
+        -- every member hook runs the composition at its own class; a payload outside the fragment is `unmodelled`
+        let hook : Nat → Obj → HRes := fun k q =>
+          match budget g (.cls k) cap with
+          | none => .error (.extra 0 [fuelMark])
+          | some n => if unmodST g (some (.cls k)) q then .error (.extra 0 [fuelMark]) else stTy g n (some (.cls k)) q
+        match tagHookSt U hook o with
+        | .ok v => some (replyObj v)
+        | .error e =>
+          let s := sexpOfHErr e
+          if hasMark s.toString then some (.atom "unmodelled") else some (.list [.atom "err", s])
   | "QUOTE", [.str s] =>
       if quoteModelled s then some (.list [.atom "quoted", .str (pyQuote s)]) else some (.atom "unmodelled")
   | _, _ => none
